@@ -364,6 +364,38 @@ theorem channels_sum_to_flat {K} [Semiring K] (nw : Nat) (R C : Int) (img : Nat 
           · exact key .G g hg
           · exact key .B b hb
 
+/-- **tie to the source wiring**: the flattened Bayer image computed through the regenerated channel table of `collect_charge_bayer`
+(`Gen.bayerChannels`: kernel letter, einsum subscripts and efficiency variable per channel; `Gen.bayerFlattenTerms`: the summed terms)
+IS the model `bayerFlat` all theorems above are about — a channel given another colour's efficiency or letter, a changed contraction
+or a dropped/duplicated term of the sum breaks this proof -/
+theorem bayer_flat_follows_source {K} [Add K] [Mul K] [Zero K] [One K] (nw : Nat) (R C : Int) (img : Nat → Int → Int → K)
+    (qe : Colour → Nat → K) (d : Int) (pattern : Int → Int → Colour) (os : Int) :
+    bayerFlatFromSource nw R C img qe d pattern os = bayerFlat nw R C img qe d pattern os := by
+  have hr : bayerChannelFromSource nw R C img qe d pattern os "red_e" = bayerChannel nw R C img (qe .R) d pattern os .R := by
+    have h : colourOfChar 'R' = some .R := by decide
+    simp [bayerChannelFromSource, Gen.bayerChannels, List.lookup, colourOfQeName, h]
+  have hg : bayerChannelFromSource nw R C img qe d pattern os "green_e" = bayerChannel nw R C img (qe .G) d pattern os .G := by
+    have h : colourOfChar 'G' = some .G := by decide
+    simp [bayerChannelFromSource, Gen.bayerChannels, List.lookup, colourOfQeName, h]
+  have hb : bayerChannelFromSource nw R C img qe d pattern os "blue_e" = bayerChannel nw R C img (qe .B) d pattern os .B := by
+    have h : colourOfChar 'B' = some .B := by decide
+    simp [bayerChannelFromSource, Gen.bayerChannels, List.lookup, colourOfQeName, h]
+  simp only [bayerFlatFromSource, bayerFlat, Gen.bayerFlattenTerms, List.foldl, hr, hg, hb]
+  cases bayerChannel nw R C img (qe .R) d pattern os .R <;> cases bayerChannel nw R C img (qe .G) d pattern os .G <;>
+    cases bayerChannel nw R C img (qe .B) d pattern os .B <;> rfl
+
+/-- `flatten=False` returns the channels in the order (R, G, B), each with its own letter and efficiency (regenerated tuple) -/
+theorem bayer_separate_follows_source {K} [Add K] [Mul K] [Zero K] [One K] (nw : Nat) (R C : Int) (img : Nat → Int → Int → K)
+    (qe : Colour → Nat → K) (d : Int) (pattern : Int → Int → Colour) (os : Int) :
+    bayerSeparateFromSource nw R C img qe d pattern os =
+      [bayerChannel nw R C img (qe .R) d pattern os .R, bayerChannel nw R C img (qe .G) d pattern os .G,
+       bayerChannel nw R C img (qe .B) d pattern os .B] := by
+  have hR : colourOfChar 'R' = some .R := by decide
+  have hG : colourOfChar 'G' = some .G := by decide
+  have hB : colourOfChar 'B' = some .B := by decide
+  simp [bayerSeparateFromSource, Gen.bayerSeparateOrder, Gen.bayerChannels, bayerChannelFromSource, List.lookup,
+    colourOfQeName, hR, hG, hB]
+
 /-- non-vacuity: a 2×2 RGGB pattern on a 4×4 image at oversampling 2 is accepted -/
 example : (bayerFlat (K := Int) 1 4 4 (fun _ _ _ => 1) (fun _ _ => 1) 2 (fun a b => if a = b then (if a = 0 then .R else .B) else .G) 1).isSome = true := by
   decide
